@@ -26,6 +26,7 @@ type Slice struct {
 	B        int
 	Origin   *Ptr
 	NilKnown bool // statically known nil
+	Lit      []Val // element values when the slice is a literal / variadic pack
 }
 
 type Struct struct {
@@ -78,9 +79,10 @@ type Map struct {
 type MapContent struct{ Val, Dom string }
 
 type ArrContent struct {
-	Arr  string
-	N    int64
-	Elem types.Type
+	Arr   string
+	N     int64
+	Elem  types.Type
+	Elems map[int64]Val // Go-side values stored at constant indices (composite literals, variadic packs)
 }
 
 type Func struct {
